@@ -185,3 +185,73 @@ def reposed_copies(ctx, d):
     if r2 is not None:
         wref = 1.0 - G.absdiff_angle(d["ye"], d["yg"]) / PI
         ctx.require(abs(r2[0] - wref) <= TOL, "reposed:aph-weight-after-heading-query", lambda: f"map-frame weight {r2[0]} vs {wref} after get_heading_bev(transforms) was called on the estimate only (ego yaw {ego[2]})")
+
+
+# ------------------------------------------------------------------------------------------------
+# the weight a TP receives IN APH (observable: Ap.tp_list with TPMetricsAph): several matched pairs with different
+# heading differences and distinct confidences, handed over in arbitrary order, ego or map frame
+# ------------------------------------------------------------------------------------------------
+
+
+@st.composite
+def aph_rankings(draw, tier="quick"):
+    n = draw(st.integers(2, 6))
+    prs = []
+    for k in range(n):
+        ye = draw(GEN.yaws())
+        yg = draw(st.one_of(GEN.yaws(), st.just(ye), st.sampled_from([ye + PI / 2, ye + PI, ye - 0.3])))
+        prs.append({"ye": ye, "yg": yg, "qse": draw(GEN.qsigns()), "qsg": draw(GEN.qsigns()), "conf": round(0.05 + 0.9 * (k + 1) / (n + 1), 6)})
+    order = draw(st.permutations(list(range(n))))
+    return {"pairs": prs, "order": list(order), "frame": draw(st.sampled_from(["base_link", "map"])), "ego": draw(GEN.ego_poses()), "nested": draw(st.booleans())}
+
+
+@CHECK.given("aph_rankings", lambda tier: aph_rankings(tier), quick=200, thorough=20000)
+def aph_rankings_body(ctx, d):
+    from perception_eval.evaluation.matching.object_matching import MatchingMode
+    from perception_eval.evaluation.metrics.detection.ap import Ap
+    from perception_eval.evaluation.metrics.detection.tp_metrics import TPMetricsAph
+    from perception_eval.evaluation.result.object_result import DynamicObjectWithPerceptionResult
+
+    frame, ego = d["frame"], d["ego"]
+    tr = D.transforms(ego) if frame == "map" else None
+    results, wref = [], []
+    for k, p in enumerate(d["pairs"]):
+        eo = dict(_obj(p["ye"], p["qse"], [0.0, 0.0]), p=[5.0 * k, 2.0, 0.0], score=p["conf"], uuid=f"e{k}")
+        go = dict(_obj(p["yg"], p["qsg"], [0.0, 0.0]), p=[5.0 * k + 0.1, 2.0, 0.0], uuid=f"g{k}")
+        r = None
+        with ctx.under_test("DynamicObjectWithPerceptionResult"):
+            r = DynamicObjectWithPerceptionResult(D.obj3d(eo, frame, ego), D.obj3d(go, frame, ego), transforms=tr)
+        if r is None:
+            return
+        results.append(r)
+        wref.append(1.0 - G.absdiff_angle(p["ye"], p["yg"]) / PI)
+    fed = [results[k] for k in d["order"]]
+    arg = [fed[: len(fed) // 2], fed[len(fed) // 2 :]] if d["nested"] else fed
+    ap = None
+    with ctx.under_test("Ap(TPMetricsAph)"):
+        ap = Ap(
+            tp_metrics=TPMetricsAph(),
+            object_results=arg,
+            num_ground_truth=len(results),
+            target_labels=[D.label_type("car")],
+            matching_mode=MatchingMode.CENTERDISTANCE,
+            matching_threshold_list=[1.0],
+        )
+    if ap is None:
+        return
+    by_conf = sorted(range(len(results)), key=lambda k: -d["pairs"][k]["conf"])
+    exp, acc = [], 0.0
+    for k in by_conf:
+        acc += wref[k]
+        exp.append(acc)
+    got = [float(v) for v in ap.tp_list]
+    ctx.cls("frame_" + frame)
+    ctx.cls("nested" if d["nested"] else "flat")
+    ws = sorted(wref)
+    ctx.mark_nontrivial(d["order"] != by_conf and ws[-1] - ws[0] > 0.05)
+    ctx.require(
+        len(got) == len(exp) and all(abs(a - b) <= 1e-9 for a, b in zip(got, exp)),
+        "aph-tp-list",
+        lambda: f"Ap.tp_list with TPMetricsAph {got}; cumulative 1 - d/pi of the TPs in descending confidence {exp} (weights by confidence rank {[wref[k] for k in by_conf]}, fed in order {d['order']}, {frame} frame)",
+    )
+    ctx.require(all(float(v) == 0.0 for v in ap.fp_list), "aph-fp-list", lambda: f"all pairs are TPs but fp_list = {list(ap.fp_list)}")
